@@ -98,7 +98,15 @@ class DagWalker(Walker):
         if expression in self.memoization:
             return self.memoization[expression]
 
-        res = self.iter_walk(expression, **kwargs)
+        try:
+            res = self.iter_walk(expression, **kwargs)
+        except Exception:
+            # a failed walk must not leave pending work (or, for one-time caches,
+            # partial results of this call) behind for the next, unrelated walk
+            self.stack.clear()
+            if self.invalidate_memoization:
+                self.memoization.clear()
+            raise
 
         if self.invalidate_memoization:
             self.memoization.clear()
